@@ -102,12 +102,17 @@ def is_int(t):
 def elem_type(t):
     for p in ("List ", "Set ", "Option "):
         if t.startswith(p):
-            return t[len(p):].strip("()")
+            return unparen(t[len(p):])
     return None
+
+
+TYPE_ALIAS = {"Str": "List Nat"}           # spec types that are names for Lean types (a spec may add its own: `types`)
 
 
 def ty(t):
     """Lean spelling of a spec type"""
+    if t in TYPE_ALIAS:
+        return TYPE_ALIAS[t]
     if t.startswith("Set "):
         return "List " + ty_arg(t[4:])
     if t.startswith("List "):
@@ -130,12 +135,24 @@ def ty(t):
 
 def split_table(t):
     """`Table K; V`: a dict display as an association list in display order"""
-    k, v = t[len("Table "):].split(";")
+    k, v = t[len("Table "):].split(";", 1)
     return k.strip(), v.strip()
 
 
+def unparen(t):
+    """`t` without ONE pair of parentheses around the whole of it"""
+    t = t.strip()
+    if t.startswith("("):
+        depth = 0
+        for i, ch in enumerate(t):
+            depth += (ch == "(") - (ch == ")")
+            if depth == 0:
+                return t[1:-1].strip() if i == len(t) - 1 else t
+    return t
+
+
 def ty_arg(t):
-    s = ty(t.strip("()"))
+    s = ty(unparen(t))
     return f"({s})" if " " in s else s
 
 
@@ -151,6 +168,7 @@ class Frame:
     def ret(self, val, env, node): raise NotImplementedError
     def raise_(self, errterm, env): raise NotImplementedError
     def cont(self, env, node): raise NotImplementedError
+    def brk(self, env, node): raise NotImplementedError
 
 
 class Translator:
@@ -171,6 +189,9 @@ class Translator:
         self.init_used = set()
         self.synthetic = set()
         self.owned = set()
+        TYPE_ALIAS.clear()
+        TYPE_ALIAS.update({"Str": "List Nat"})
+        TYPE_ALIAS.update(spec.get("types", {}))
 
     # ------------------------------------------------------------------------------------------- helpers
     def bad(self, node, reason):
@@ -213,6 +234,11 @@ class Translator:
             if v.typ.startswith("Option "):
                 self.bad(node, f"type {v.typ} where {typ} is expected")
             return f"(some {self.coerce(v, inner, node)})"
+        for src, fmt in self.spec.get("unions", {}).get(typ, ()):
+            if v.typ == src:
+                return "(" + fmt.format(v.term) + ")"
+        if v.typ == "EmptyDict" and typ.startswith("Table "):
+            return f"([] : {ty(typ)})"
         if "|" in typ:
             a, b = typ.split("|")
             if is_int(v.typ) and a == "Int":
@@ -256,6 +282,8 @@ class Translator:
             return V(f"({c} : Int)", "Int", False, lit=c)
         if isinstance(c, bytes):
             return V("([" + ", ".join(str(b) for b in c) + "] : Bytes)", "Bytes")
+        if isinstance(c, str):
+            return V("([" + ", ".join(str(ord(ch)) for ch in c) + "] : List Nat)", "Str")       # the code points
         if c is None:
             return V("none", "NoneType")
         self.bad(node, f"literal of type {type(c).__name__} is outside the subset")
@@ -356,6 +384,8 @@ class Translator:
         op = type(node.op).__name__
         a = self.expr(node.operand, env)
         if op == "Not":
+            if is_int(a.typ):
+                return V(f"(decide ({a.term} = 0))", "Bool")          # `not n` is `n == 0`
             if a.typ != "Bool":
                 self.bad(node, f"`not` on {a.typ} (truthiness of non-bools is outside the subset)")
             return V(f"(!{a.term})", "Bool")
@@ -399,6 +429,11 @@ class Translator:
             if b.typ.startswith("Dict "):
                 kt = split_dict(b.typ)[0]
                 return f"({neg}(({b.term}) {self.coerce(a, kt, node)}).isSome)"
+            if a.typ == "Str" and b.typ == "Str":
+                return f"({neg}PyRt.strIn {a.term} {b.term})"
+            if b.typ.startswith("Table "):
+                kt = split_table(b.typ)[0]
+                return f"({neg}(PyRt.tableGet {b.term} {self.coerce(a, kt, node)}).isSome)"
             et = elem_type(b.typ) if b.typ.startswith(("List ", "Set ")) else None
             if et is None:
                 self.bad(node, f"`in` on {b.typ}")
@@ -413,6 +448,11 @@ class Translator:
         if o in ("Eq", "NotEq"):
             rel = "=" if o == "Eq" else "≠"
             # a value that is an int or a tuple: equal to an int iff it is that int (a tuple never equals an int)
+            un = self.spec.get("unions", {})
+            if a.typ in un and a.typ != b.typ:
+                return f"(decide ({a.term} {rel} {self.coerce(b, a.typ, node)}))"
+            if b.typ in un and a.typ != b.typ:
+                return f"(decide ({self.coerce(a, b.typ, node)} {rel} {b.term}))"
             if "|" in a.typ and is_int(b.typ):
                 return f"(decide ({a.term} {rel} {self.coerce(b, a.typ, node)}))"
             if "|" in b.typ and is_int(a.typ):
@@ -441,7 +481,9 @@ class Translator:
         left = self.expr(node.left, env)
         out = []
         for i, (op, cn) in enumerate(zip(node.ops, node.comparators)):
-            right = self.cmp_operand(cn, env) if i == 0 else self.strict(lambda cn=cn: self.cmp_operand(cn, env))
+            memb = isinstance(op, (ast.In, ast.NotIn))
+            rd = (lambda cn=cn: self.cmp_operand(cn, env)) if memb else (lambda cn=cn: self.expr(cn, env))
+            right = rd() if i == 0 else self.strict(rd)
             out.append(self.cmp1(node, op, left, right))
             left = right
         return V(out[0] if len(out) == 1 else "(" + " && ".join(out) + ")", "Bool")
@@ -520,6 +562,9 @@ class Translator:
             if not is_int(i.typ):
                 self.bad(node, f"index of type {i.typ}")
             return V(self.hoist(f"PyRt.getItem {x.term} {self.to_int(i)}", "Nat", node), "Nat", True)
+        if x.typ.startswith("Table "):
+            kt, vt = split_table(x.typ)
+            return V(self.hoist(f"PyRt.tableGetE {x.term} {self.coerce(i, kt, node)}", vt, node), vt)
         if x.typ.startswith("Dict "):
             kt, vt = split_dict(x.typ)
             return V(self.hoist(f"PyRt.dictGetE {x.term} {self.coerce(i, kt, node)}", vt, node), vt)
@@ -726,9 +771,35 @@ class Translator:
             return line + "\n" + self.block(rest, env2, frame)
         return self.with_hoists(hs, env, frame, inner)
 
+    def table_set(self, st, name_node, key_node, val_node, rest, env, frame, key_first=False):
+        """`d[k] = v` / `d.update({k: v})` on a dict local this function created (declared in the spec's `locals`)"""
+        x = env[name_node.id]
+        kt, vt = split_table(x.typ)
+        saved, self.hoists = self.hoists, []
+        try:
+            # Python evaluates the value before the key in `d[k] = v`, the key before the value in a display `{k: v}`
+            if key_first:
+                k = self.expr(key_node, env)
+                v = self.expr(val_node, env)
+            else:
+                v = self.expr(val_node, env)
+                k = self.expr(key_node, env)
+            hs = self.hoists
+        finally:
+            self.hoists = saved
+
+        def inner():
+            new = V(f"(PyRt.tableSet {x.term} {self.coerce(k, kt, st)} {self.coerce(v, vt, st)})", x.typ)
+            env2, line = self.bind(name_node, new, env, st)
+            return line + "\n" + self.block(rest, env2, frame)
+        return self.with_hoists(hs, env, frame, inner)
+
     def subscript_assign(self, st, tg, rest, env, frame):
         """`x[a:b] = v` / `x[i] = v` on a bytearray local created in this function (`bytearray(…)`, `copy.deepcopy(…)`)"""
         name = tg.value.id
+        if (name in env and env[name].typ.startswith("Table ") and name in self.spec.get("locals", {})
+                and not isinstance(tg.slice, ast.Slice)):
+            return self.table_set(st, tg.value, tg.slice, st.value, rest, env, frame)
         if name not in self.owned or name not in env or env[name].typ != "Bytes":
             self.bad(st, "subscript assignment to anything but a bytearray local this function created")
         x = env[name]
@@ -776,6 +847,23 @@ class Translator:
     def s_Continue(self, st, rest, env, frame):
         return frame.cont(env, st)
 
+    def s_Break(self, st, rest, env, frame):
+        return frame.brk(env, st)
+
+    EXC = {"KeyError": "key", "IndexError": "index", "ValueError": "value", "ZeroDivisionError": "zeroDiv",
+           "OverflowError": "overflow", "TypeError": "type"}
+
+    def s_Try(self, st, rest, env, frame):
+        if st.orelse or st.finalbody or not st.handlers:
+            self.bad(st, "try with else/finally or without a handler")
+        hs = []
+        for h in st.handlers:
+            if not (isinstance(h.type, ast.Name) and h.type.id in self.EXC):
+                self.bad(h, "except clause that does not name one of " + ", ".join(self.EXC))
+            hs.append((self.EXC[h.type.id], list(h.body)))
+        after = ContFrame(self, frame, rest)
+        return self.block(list(st.body), env, TryFrame(self, after, hs))
+
     def append_call(self, st):
         """`<place>.append(x)` on a list place of the spec → (place key, argument node)"""
         c = st.value if isinstance(st, ast.Expr) else None
@@ -811,6 +899,12 @@ class Translator:
                 env2, line = self.bind(st.value.func.value, new, env, st)
                 return line + "\n" + self.block(rest, env2, frame)
             return self.with_hoists(hs, env, frame, inner)
+        if (isinstance(c0, ast.Call) and isinstance(c0.func, ast.Attribute) and c0.func.attr == "update" and len(c0.args) == 1
+                and not c0.keywords and isinstance(c0.func.value, ast.Name) and c0.func.value.id in env
+                and env[c0.func.value.id].typ.startswith("Table ") and c0.func.value.id in self.spec.get("locals", {})
+                and isinstance(c0.args[0], ast.Dict) and len(c0.args[0].keys) == 1 and c0.args[0].keys[0] is not None):
+            d = c0.args[0]
+            return self.table_set(st, c0.func.value, d.keys[0], d.values[0], rest, env, frame, key_first=True)
         k = self.key(st)
         if k in self.spec.get("drop_calls", ()):
             return self.block(rest, env, frame)              # the spec declares this call outside the model
@@ -836,8 +930,10 @@ class Translator:
 
     def s_If(self, st, rest, env, frame):
         c, hs = self.eval(st.test, env)
+        if is_int(c.typ):
+            c = V(f"(decide ({c.term} ≠ 0))", "Bool")                 # an int is true iff it is not 0
         if c.typ != "Bool":
-            self.bad(st.test, f"condition of type {c.typ} (truthiness of non-bools is outside the subset)")
+            self.bad(st.test, f"condition of type {c.typ} (truthiness of anything but bools and ints is outside the subset)")
 
         def inner():
             simple = self.try_join(c, st.body, st.orelse, env, st)
@@ -870,7 +966,7 @@ class Translator:
             elif isinstance(s, ast.Expr) and self.key(s) in self.actions and "__acts" not in acc:
                 acc.append("__acts")
             elif (isinstance(s, ast.Expr) and isinstance(s.value, ast.Call) and isinstance(s.value.func, ast.Attribute)
-                  and s.value.func.attr in ("extend", "append") and isinstance(s.value.func.value, ast.Name)):
+                  and s.value.func.attr in ("extend", "append", "update") and isinstance(s.value.func.value, ast.Name)):
                 if s.value.func.value.id not in acc:
                     acc.append(s.value.func.value.id)
             elif self.append_call(s) is not None and ("place", self.append_call(s)[0]) not in acc:
@@ -967,6 +1063,9 @@ class Translator:
                 self.bad(st, "enumerate() of anything but bytes, or not unpacked into two names")
             return f"(PyRt.enumFrom 0 {x.term})", [(ns[0], "Nat", True), (ns[1], "Nat", True)], hs
         x, hs = self.eval(it, env)
+        if x.typ.startswith("Table ") and isinstance(tg, ast.Name):
+            kt = split_table(x.typ)[0]
+            return f"(PyRt.tableKeys {x.term})", [(names(tg)[0], kt, kt == "Nat")], hs      # a dict iterates over its keys
         if x.typ == "Bytes" and isinstance(tg, ast.Name):
             return f"(PyRt.bytesNat {x.term})", [(names(tg)[0], "Nat", True)], hs
         et = elem_type(x.typ) if x.typ.startswith("List ") else None
@@ -1009,9 +1108,27 @@ class Translator:
     def loop_core(self, st, rest, env, frame, bound, mk, binder, pre, fuel=None):
         """shared by `for` and `while`: loop state = the variables assigned in the body that exist before the loop"""
         has_ret = False
+
+        def own(stmts):
+            """statements of this loop's body, not those of loops nested in it"""
+            for x in stmts:
+                yield x
+                if isinstance(x, (ast.For, ast.While)):
+                    continue
+                for f in ("body", "orelse", "handlers", "finalbody"):
+                    sub = getattr(x, f, None)
+                    if isinstance(sub, list):
+                        yield from own([y for y in sub if isinstance(y, ast.stmt)])
+                        for y in sub:
+                            if isinstance(y, ast.ExceptHandler):
+                                yield from own(y.body)
+                if isinstance(x, ast.Match):
+                    for c in x.cases:
+                        yield from own(c.body)
+        has_ret = any(isinstance(x, ast.Break) for x in own(st.body))
         for n in ast.walk(ast.Module(body=st.body, type_ignores=[])):
-            if isinstance(n, (ast.Break, ast.Continue)):
-                self.bad(n, "break/continue inside a loop body")
+            if isinstance(n, ast.Continue):
+                self.bad(n, "continue inside a loop body")
             if isinstance(n, (ast.For, ast.While)) and any(isinstance(m, ast.Return) for m in ast.walk(n)):
                 self.bad(n, "return inside a nested loop")
             has_ret = has_ret or isinstance(n, ast.Return)
@@ -1092,6 +1209,25 @@ class ContFrame(Frame):
     def ret(self, val, env, node): return self.parent.ret(val, env, node)
     def raise_(self, e, env): return self.parent.raise_(e, env)
     def cont(self, env, node): return self.parent.cont(env, node)
+    def brk(self, env, node): return self.parent.brk(env, node)
+
+
+class TryFrame(Frame):
+    """the body of a `try`: an exception one of the handlers names runs that handler (with the variables as they are
+    at the raise), then what follows the statement; any other goes on outwards"""
+    def __init__(self, tr, after, handlers):
+        self.tr, self.after, self.handlers = tr, after, handlers
+
+    def fall(self, env): return self.after.fall(env)
+    def ret(self, val, env, node): return self.after.ret(val, env, node)
+    def cont(self, env, node): return self.after.cont(env, node)
+    def brk(self, env, node): return self.after.brk(env, node)
+
+    def raise_(self, e, env):
+        out = self.after.raise_(e, env)
+        for kind, body in reversed(self.handlers):
+            out = f"(if decide ({e} = PyRt.Err.{kind}) then (\n{ind(self.tr.block(body, env, self.after))})\nelse {out})"
+        return out
 
 
 class JoinFrame(Frame):
@@ -1106,6 +1242,7 @@ class JoinFrame(Frame):
     def ret(self, val, env, node): raise _NotSimple()
     def raise_(self, e, env): raise _NotSimple()
     def cont(self, env, node): raise _NotSimple()
+    def brk(self, env, node): raise _NotSimple()
 
     def finish(self, env, node, combine, parts):
         tr, mod = self.tr, self.mod
@@ -1157,6 +1294,12 @@ class LoopFrame(Frame):
     def cont(self, env, node): self.tr.bad(node, "continue inside a loop body")
     def raise_(self, e, env): return f".error {e}"
 
+    def brk(self, env, node):
+        if self.parent is None:
+            self.tr.bad(node, "break inside a loop body")
+        self.ends.append(dict(env))
+        return f"\0K{id(self)}_{len(self.ends) - 1}\0"
+
     def result_types(self):
         out = []
         for m in self.mod:
@@ -1173,6 +1316,7 @@ class LoopFrame(Frame):
         for j, e in enumerate(self.ends):
             tup = "(" + ", ".join(self.tr.coerce(e[m], t, None) for m, t in zip(self.mod, typs)) + ")" if self.mod else "()"
             body = body.replace(f"\0L{id(self)}_{j}\0", f".ok (.next {tup})" if step else (f".ok {tup}" if raises else tup))
+            body = body.replace(f"\0K{id(self)}_{j}\0", f".ok (.brk {tup})")
         return body
 
 
@@ -1241,6 +1385,9 @@ class TopFrame(Frame):
 
     def raise_(self, e, env):
         return self.result(None, env, err=e)
+
+    def brk(self, env, node):
+        self.tr.bad(node, "break outside a loop")
 
     def cont(self, env, node):
         if not self.tr.exits:
